@@ -210,7 +210,11 @@ fn run_family<T: ColumnType + 'static>(case: &Value) -> Value {
         let t0 = std::time::Instant::now();
         let mut last = list(d);
         let mut stable_since = std::time::Instant::now();
-        while t0.elapsed() < std::time::Duration::from_millis(2000) && stable_since.elapsed() < std::time::Duration::from_millis(300) {
+        // `bg_expect` (how many markers the generator's reference expects) only bounds the WAIT under load: fewer markers than that are
+        // waited for up to 3 s before being reported as missing; more markers than that are reported as soon as the directory is stable
+        let expect = case.get("bg_expect").and_then(|n| n.as_u64()).unwrap_or(0) as usize;
+        while t0.elapsed() < std::time::Duration::from_millis(3000)
+            && (last.len() < expect || stable_since.elapsed() < std::time::Duration::from_millis(300)) {
             std::thread::sleep(std::time::Duration::from_millis(25));
             let cur = list(d);
             if cur != last {
